@@ -61,7 +61,11 @@ func main() {
 			fmt.Println("ERROR load:", err)
 			os.Exit(1)
 		}
-		props.Inventory(p)
+		if len(pos) > 0 && pos[0] == "transfers" {
+			props.InventoryTransfers(p)
+		} else {
+			props.Inventory(p)
+		}
 	case "ssa":
 		p, err := core.Load(core.RepoRootFromEnv())
 		if err != nil {
